@@ -258,6 +258,7 @@ var sharedPool = []sharedRule{
 	{"label-list-resolves-name", func(c *Ctx, r string) { checkLabelListResolvesName(c) }},
 	{"get-builds-its-reader", func(c *Ctx, r string) { checkGetBuildsItsReader(c, r) }},
 	{"writeto-counts-what-it-copied", func(c *Ctx, r string) { checkWriteToCountsWhatItCopied(c, r) }},
+	{"local-metadata-scanners-skip-data", func(c *Ctx, r string) { checkLocalMetadataScannersSkipData(c, r) }},
 	{"effects", func(c *Ctx, r string) {
 		checkEffectDominance(c, r, "pkg/cafs", "pkg/core", "pkg/fuse", "pkg/storage/localfs", "pkg/wal", "pkg/filetracker")
 	}},
